@@ -132,6 +132,7 @@ class Check:
         self.known_hits: Dict[str, int] = {}
         self.notes: List[str] = []
         self._distinct = set()
+        self._sig_seen: Dict[str, int] = {}
         REPLAYS.mkdir(exist_ok=True)
         for old in REPLAYS.glob(f"{prop}_{tier}_*.json"):
             old.unlink()
@@ -172,13 +173,17 @@ class Check:
                 print(f"KNOWN-FINDING: property={self.prop} {known.get('description', '')}", flush=True)
             self.known_hits[key] = self.known_hits.get(key, 0) + 1
             return
-        n = len(self.violations)
-        if n < 20:
+        key = json.dumps(signature, sort_keys=True, default=str)
+        n = len(self._sig_seen)
+        if key not in self._sig_seen and n < 40:
+            self._sig_seen[key] = 0
             REPLAYS.mkdir(exist_ok=True)
             path = REPLAYS / f"{self.prop}_{self.tier}_{n}.json"
             path.write_text(json.dumps({"property": self.prop, "signature": signature, "detail": detail}, indent=1, default=str))
             print(f"VIOLATION property={self.prop} replay={path}", flush=True)
             print(f"  signature: {json.dumps(signature, default=str)}", flush=True)
+        if key in self._sig_seen:
+            self._sig_seen[key] += 1
         self.violations.append(signature)
 
     def finish(self, extra: Optional[Dict[str, Any]] = None) -> int:
@@ -203,7 +208,7 @@ class Check:
         }
         (EVIDENCE / f"{self.prop}.json").write_text(json.dumps(ev, indent=1, default=str))
         if self.violations:
-            print(f"{self.prop}: {len(self.violations)} violation(s)", flush=True)
+            print(f"{self.prop}: {len(self.violations)} violation(s), {len(self._sig_seen)} distinct signature(s)", flush=True)
             return 1
         print(
             f"{self.prop}: OK  states={cov['states']} transitions={cov['transitions']} "
